@@ -53,9 +53,9 @@ def quiet_logger():
 
 def make_pipeline(nodes: list[dict], *, trace=None, executor=None):
     from semantiva import Pipeline
-    from .executor import RecordingExecutor, SvOrchestrator
+    from .executor import RecordingExecutor, SvOrchestrator, SvTransport
     orch = SvOrchestrator(executor or RecordingExecutor())
-    return Pipeline(copy.deepcopy(nodes), logger=quiet_logger(), orchestrator=orch, trace=trace)
+    return Pipeline(copy.deepcopy(nodes), logger=quiet_logger(), orchestrator=orch, trace=trace, transport=SvTransport())
 
 
 def make_payload(sc: dict):
